@@ -1259,6 +1259,14 @@ def work_C09(run, rng, budget):
         if r is own:
             sizes(run, m)
         g = graph_for_writer(m, r, wide=r.random() < 0.6)
+        if m.family == "boundary:ranges":
+            # the same molecule as a graph that carries no coordinates and no bond types at all: the writer's defaults
+            # (0.000000, bond type 1) are what must come back
+            for _n, dd in g.nodes(data=True):
+                for k in ("x_coord", "y_coord", "z_coord"):
+                    dd.pop(k, None)
+            for _a, _b, dd in g.edges(data=True):
+                dd.pop("bond_type", None)
         line, real, info = R.op_write(g)
         run.corr(line, real, "exact")
         text = info.get("text")
@@ -1297,9 +1305,9 @@ def work_C09(run, rng, budget):
                 for k in ("x_coord", "y_coord", "z_coord"):
                     if f"{a.get(k, 0):.6f}" != f"{b.get(k, 0):.6f}" and float(f"{a.get(k, 0):.6f}") != b.get(k, 0):
                         why = f"atom {n}: {k} {a.get(k)!r} -> {b.get(k)!r}"
-            if sorted((tuple(sorted((pos[x], pos[y]))), d.get("bond_type")) for x, y, d in g.edges(data=True)) != \
+            if sorted((tuple(sorted((pos[x], pos[y]))), d.get("bond_type", 1)) for x, y, d in g.edges(data=True)) != \
                     sorted((tuple(sorted((x, y))), d.get("bond_type")) for x, y, d in h.edges(data=True)):
-                why = "bond list differs"
+                why = "bond list differs (a bond without a type is written as type 1)"
         if why:
             run.fail("write-read-roundtrip-differs", why, {"mol": mol_repr(m), "text": text})
         run.sample({"mol": mol_repr(m), "lines": text.split("\n")[6:9]})
